@@ -141,6 +141,7 @@ Proof.
     + lia.
     + intros id [].
     + constructor.
+  - dmatch; cbn [fst snd]; apply ans_ok_same; auto.
 Qed.
 
 Lemma step_ans s dt e : pend_inv s -> ans_ok s (fst (step s dt e)) (snd (step s dt e)).
@@ -240,6 +241,7 @@ Proof.
   - left. dmatch; cbn [fst]; st_simpl; exact PF.
   - left. dmatch; cbn [fst]; st_simpl; exact PF.
   - left; exact PF.
+  - left. dmatch; cbn [fst]; st_simpl; exact PF.
 Qed.
 
 Lemma step_pend_ans s dt e :
